@@ -242,10 +242,9 @@ abbrev Enf := List (String × String)
 def baseLevel (lvl : String) : Option (String × Enf) :=
   Facts.levels.foldl (fun acc l => if l.1 == lvl then some l else acc) none
 
-/-- `m[k] = v` on an association list -/
-def setKey (k v : String) : Enf → Enf
-  | [] => [(k, v)]
-  | (k', v') :: r => if k' == k then (k, v) :: r else (k', v') :: setKey k v r
+/-- `m[k] = v` on an association list: the entry of `k` is replaced, or appended when missing -/
+def setKey (k v : String) (e : Enf) : Enf :=
+  if e.any (·.1 == k) then e.map (fun p => if p.1 == k then (k, v) else p) else e ++ [(k, v)]
 
 /-- body of the loop over the Override map -/
 def applyOverride (kv : KV) (e : Enf) : Except String Enf :=
